@@ -5,7 +5,7 @@
    single instance" (witnesses below); what does hold is stated in C08 (retrieval_class_state). *)
 From Coq Require Import ZArith List Bool QArith Qcanon Permutation.
 From TE Require Import Base.Val Base.Nd Base.Xq Algebra.Metric Algebra.MergeTree Algebra.Additive
-  Models.Ranking Proofs.RankingP.
+  Models.Ranking Proofs.RankingP Proofs.RankingAlgP.
 Import ListNotations.
 
 Theorem hit_rate_merge_tree_eq_single_in_merge_order :
@@ -50,6 +50,69 @@ Theorem retrieval_recall_merge_refuted :
   cmp (retr_metric true) (wit_cfg ANeg) (run (retr_metric true) (wit_cfg ANeg) (Shard (retr_metric true) (stream (retr_metric true) t))) = RVec [Fin 1%Qc].
 Proof. exact recall_merge_refuted. Qed.
 
+(* ---- retrieval classes: what DOES hold ------------------------------------------------------------
+   (class, option) combinations, k given (with k = None nothing is ever pruned):
+     RetrievalPrecision, empty_target_action = "neg", any k / limit_k_to_size / num_queries / avg : INVARIANT
+     RetrievalPrecision, "pos" / "skip" / "err"                                                     : refuted
+     RetrievalRecall, every empty_target_action                                                     : refuted
+   The hypotheses "tie_free" are the property's proviso (torch.topk's order among equal scores is
+   unspecified; the model's canonical order makes the model-level proofs independent of it). *)
+(* state level, both classes, every option: after ANY merge tree (nested merges, empty shards, updates
+   after merges) the top-k of the items held for query i = the top-k of all items routed to query i,
+   and every held item comes from the stream *)
+Theorem retrieval_state_after_any_merge_tree :
+  forall recall c (t : mtree (retr_metric recall)),
+    (forall i, i < r_nq c -> tie_free (rdata c i (stream (retr_metric recall) t))) ->
+    List.length (run (retr_metric recall) c t) = r_nq c /\
+    forall i, i < r_nq c ->
+      topk (r_k c) (nth i (run (retr_metric recall) c t) []) = topk (r_k c) (rdata c i (stream (retr_metric recall) t)) /\
+      incl (nth i (run (retr_metric recall) c t) []) (rdata c i (stream (retr_metric recall) t)).
+Proof. intros recall c t _. exact (retr_tree_state recall c t). Qed.
+(* RetrievalPrecision with "neg": compute() after any merge tree in closed form ... *)
+Theorem retrieval_precision_neg_merge_tree_closed_form :
+  forall c (t : mtree (retr_metric false)), r_act c = ANeg -> r_k c <> Some 0 ->
+    (forall i, i < r_nq c -> tie_free (rdata c i (stream (retr_metric false) t))) ->
+    (forall i, i < r_nq c -> labels01 (rdata c i (stream (retr_metric false) t))) ->
+    cmp (retr_metric false) c (run (retr_metric false) c t) =
+    rfinish c (map (fun i => rquery false c (topk (r_k c) (rdata c i (stream (retr_metric false) t)))) (seq 0 (r_nq c))).
+Proof. intros c t Ha Hk _ Hl. exact (rprec_neg_tree c t Ha Hk Hl). Qed.
+(* ... hence sharding-invariant: any two merge trees over permutations of the same update stream agree
+   (in particular a tree and the single instance Shard (stream t)) *)
+Theorem retrieval_precision_neg_any_sharding :
+  forall c (t t' : mtree (retr_metric false)), r_act c = ANeg -> r_k c <> Some 0 ->
+    (forall i, i < r_nq c -> tie_free (rdata c i (stream (retr_metric false) t))) ->
+    (forall i, i < r_nq c -> labels01 (rdata c i (stream (retr_metric false) t))) ->
+    Permutation (stream (retr_metric false) t) (stream (retr_metric false) t') ->
+    cmp (retr_metric false) c (run (retr_metric false) c t) = cmp (retr_metric false) c (run (retr_metric false) c t').
+Proof. intros c t t' Ha Hk _ Hl Hp. exact (rprec_neg_sharding c t t' Ha Hk Hl Hp). Qed.
+Theorem retrieval_precision_merge_refuted_pos_skip_err :
+  forall a, a <> ANeg ->
+  let t := wit_tree false [b1 900 0] [b1 100 1] in
+  enc_rout (wit_cfg a) (cmp (retr_metric false) (wit_cfg a) (run (retr_metric false) (wit_cfg a) t)) <>
+  enc_rout (wit_cfg a) (cmp (retr_metric false) (wit_cfg a) (run (retr_metric false) (wit_cfg a) (Shard (retr_metric false) (stream (retr_metric false) t)))).
+Proof. exact precision_merge_refuted_all. Qed.
+Theorem retrieval_recall_merge_refuted_every_action :
+  forall a,
+  let t := wit_tree true [b1 900 1] [b1 100 1] in
+  enc_rout (wit_cfg a) (cmp (retr_metric true) (wit_cfg a) (run (retr_metric true) (wit_cfg a) t)) <>
+  enc_rout (wit_cfg a) (cmp (retr_metric true) (wit_cfg a) (run (retr_metric true) (wit_cfg a) (Shard (retr_metric true) (stream (retr_metric true) t)))).
+Proof. exact recall_merge_refuted_all. Qed.
+(* non-vacuity: nested merge with an empty shard and a post-merge update, 2 queries, k = 2, "neg" *)
+Example retrieval_precision_neg_tree_example :
+  let c := Build_rcfg ANeg (Some 2) true 2 false 1024 in
+  let M := retr_metric false in
+  let ba : rbatch := ([5; 9; 7]%Z, [1; 0; 1]%Z, Some [0; 0; 1]%Z) in
+  let bb : rbatch := ([8; 1]%Z, [1; 0]%Z, Some [0; 1]%Z) in
+  let bc : rbatch := ([3; 6]%Z, [1; 1]%Z, Some [1; 0]%Z) in
+  let t := Merge M (Shard M []) [Merge M (Shard M [ba]) [Shard M [bb]; Shard M []] []] [bc] in
+  (forall i, i < r_nq c -> tie_free (rdata c i (stream M t)) /\ labels01 (rdata c i (stream M t))) /\
+  enc_rout c (cmp M c (run M c t)) = enc_rout c (cmp M c (run M c (Shard M [bc; bb; ba]))).
+Proof.
+  split; [|vm_compute; reflexivity].
+  intros [|[|i]] Hi; [| |cbn in Hi; Lia.lia]; (split; [unfold tie_free; cbn; repeat constructor; cbn; intuition discriminate|
+     unfold labels01; cbn; repeat (apply Forall_cons; [cbn; first [left; reflexivity | right; reflexivity]|]); apply Forall_nil]).
+Qed.
+
 Example ctr_tree_example :
   let b : ctr_batch := ([[1%Qc; 0%Qc]], WSc 1%Qc) in
   let t := Merge ctr_metric (Shard ctr_metric []) [Shard ctr_metric [b]; Shard ctr_metric []] [b] in
@@ -62,3 +125,8 @@ Print Assumptions click_through_rate_any_sharding.
 Print Assumptions weighted_calibration_any_sharding.
 Print Assumptions retrieval_precision_merge_refuted.
 Print Assumptions retrieval_recall_merge_refuted.
+Print Assumptions retrieval_state_after_any_merge_tree.
+Print Assumptions retrieval_precision_neg_merge_tree_closed_form.
+Print Assumptions retrieval_precision_neg_any_sharding.
+Print Assumptions retrieval_precision_merge_refuted_pos_skip_err.
+Print Assumptions retrieval_recall_merge_refuted_every_action.
